@@ -13,7 +13,7 @@
 (*       by each of its alternatives, recursively through nested maps.     *)
 (* host = TRUE yields the SENT form of the lossy request members.          *)
 (***************************************************************************)
-EXTENDS CtapCodec, FiniteSets
+EXTENDS CtapCodec, FiniteSets, Dict
 
 LNone == << >>
 
@@ -42,13 +42,27 @@ BytesAlts(max) ==
 Euro == <<226, 130, 172>>
 TextLens(max) == IF max < 0 THEN {0, 1, 23, 24, 255, 256, 300}
                  ELSE {n \in {0, 1, 23, 24, 255, 256} : n <= max} \cup {max}
+\* contents, not only sizes: white space at either end (code that trims), the words of the
+\* source's own dictionary alone and as a prefix of a longer text (code that recognises a scheme, a
+\* magic identifier, a second spelling)
+Spaced(n) == IF n >= 2 THEN {AsciiPattern(41, n - 1) \o <<32>>, <<32>> \o AsciiPattern(41, n - 1), AsciiPattern(41, n - 1) \o <<9>>} ELSE {}
+DictWords(max) == {w \in DictAscii : max < 0 \/ Len(w) <= max}
+                  \cup {w \o AsciiPattern(41, 12) : w \in {x \in DictAscii : Len(x) <= 8 /\ (max < 0 \/ Len(x) + 12 <= max)}}
 TextAlts(max) ==
     {AsciiPattern(41, n) : n \in TextLens(max)}
     \cup (IF max < 0 \/ max >= 6 THEN {Euro \o Euro, <<0>>, <<127>> \o EncodeScalar(128512)} ELSE {})
+    \cup Spaced(IF max < 0 THEN 20 ELSE max) \cup Spaced(5)
+    \cup DictWords(max)
 
-UIntAlts32 == {BN(0), BN(1), BN(23), BN(24), BN(255), BN(256), BN(65535), BN(65536), BN(65696), BNMaxU32}     \* 65696 = 0x0100A0
+UIntAlts32 == {BN(0), BN(1), BN(2), BN(3), BN(23), BN(24), BN(255), BN(256), BN(65535), BN(65536), BN(65696), BNMaxU32}     \* 65696 = 0x0100A0
 UIntAlts64 == UIntAlts32 \cup {BNSucc(BNMaxU32), BNMaxU64}
+\* algorithm identifiers: the thresholds, the numbers congruent to the two known identifiers modulo
+\* 2^8 and 2^16 (a comparison through a narrower type), the IANA COSE registry's other signature
+\* algorithms, and every integer literal of the source
 I32Alts == {-2147483647 - 1, -65537, -257, -25, -24, -8, -7, -1, 0, 23, 24, 255, 65536, 2147483647}
+           \cup {249, 248, -263, -264, 505, 65529, 65528, -65543, -65544}
+           \cup {-9, -19, -35, -36, -37, -38, -39, -47, -48, -49, -50, -51, -52, -53, -258, -259, -65535}
+           \cup DictInts
 
 \* the first k elements of a set, in some fixed order
 RECURSIVE SetToSeqL(_)
@@ -85,17 +99,24 @@ MinOf(s, F, host) ==
 \* how a value of a member is stored in its parent
 WrapFor(m, a) == IF m.req THEN a ELSE <<a>>
 
+PK(a) == [alg |-> a, type |-> N_publicKey]
 ParamsAltsHost ==
     {<< >>, <<[alg |-> ALG_ES256, type |-> N_publicKey]>>,
      <<[alg |-> ALG_EdDSA, type |-> N_publicKey], [alg |-> ALG_ES256, type |-> N_publicKey]>>,
      <<[alg |-> ALG_ES256, type |-> N_publicKey], [alg |-> ALG_ES256, type |-> N_publicKey], [alg |-> ALG_EdDSA, type |-> N_publicKey]>>,
      <<[alg |-> -257, type |-> N_publicKey], [alg |-> ALG_ES256, type |-> N_tpm], [alg |-> ALG_EdDSA, type |-> N_publicKey]>>}
+    \* every candidate identifier alone, in front of and between the two known ones (an identifier
+    \* wrongly taken for a known one shows up as itself, or crowds a known one out of the two slots)
+    \cup {<<PK(a)>> : a \in I32Alts}
+    \cup {<<PK(a), PK(ALG_ES256), PK(ALG_EdDSA)>> : a \in I32Alts}
+    \cup {<<PK(ALG_EdDSA), PK(a), PK(ALG_ES256)>> : a \in I32Alts}
+    \cup {<<[alg |-> ALG_ES256, type |-> w], PK(ALG_EdDSA)>> : w \in {x \in DictAscii : Len(x) <= 32}}
 ParamsAlts ==
     {<< >>, <<ALG_ES256>>, <<ALG_EdDSA>>, <<ALG_ES256, ALG_EdDSA>>, <<ALG_EdDSA, ALG_ES256>>,
      <<ALG_ES256, ALG_ES256>>, <<ALG_EdDSA, ALG_EdDSA>>, <<-257>>, <<-257, ALG_ES256>>, <<-65537, 24>>, <<0, -1>>}
 
 Alts(ty, F, host) ==
-    CASE ty.t = "u8" -> {0, 1, 23, 24, 255}
+    CASE ty.t = "u8" -> {0, 1, 2, 3, 23, 24, 255} \cup {n \in DictInts : n >= 0 /\ n <= 255}
       [] ty.t = "u32" -> UIntAlts32
       [] ty.t = "u64" -> UIntAlts64
       [] ty.t = "i32" -> I32Alts
@@ -104,8 +125,10 @@ Alts(ty, F, host) ==
       [] ty.t = "bytes" -> BytesAlts(ty.max)
       [] ty.t = "bytesExact" -> {Pattern(43, ty.n), Rep(0, ty.n), Rep(255, ty.n), DerLike(ty.n), CborLike(ty.n), TailLike(ty.n, <<0, 160>>)}
       [] ty.t = "str" -> TextAlts(ty.max)
-      [] ty.t = "strTrunc" -> IF host THEN TextAlts(-1) \cup {AsciiPattern(41, n) : n \in {63, 64, 65}} ELSE TextAlts(ty.L)
-      [] ty.t = "strSkip" -> IF host THEN TextAlts(-1) \cup {AsciiPattern(41, n) : n \in {127, 128, 129}} ELSE TextAlts(ty.L)
+      [] ty.t = "strTrunc" -> IF host THEN TextAlts(-1) \cup {AsciiPattern(41, n) : n \in {63, 64, 65}} \cup Spaced(63) \cup Spaced(64) \cup Spaced(65) \cup Spaced(66)
+                                      ELSE TextAlts(ty.L)
+      [] ty.t = "strSkip" -> IF host THEN TextAlts(-1) \cup {AsciiPattern(41, n) : n \in {127, 128, 129}} \cup Spaced(128) \cup Spaced(129)
+                                     ELSE TextAlts(ty.L)
       [] ty.t = "iconInner" -> TextAlts(-1)
       [] ty.t = "enumU8" -> ty.set
       [] ty.t = "enumStr" -> ty.tab
@@ -139,7 +162,6 @@ FullOfDefaults(s, F, host) ==
     [nm \in AllNames(s) |->
         LET m == MemberF(s, F, nm) IN
         IF m.feat # "" /\ m.feat \notin F THEN LNone
-        ELSE IF ~(m.ser \/ host) THEN LNone
         ELSE WrapFor(m, DefaultOf(InnerTy(m.ty), F, host))]
 
 \* the two ends of a type's range (used for PAIRS of members)
@@ -182,6 +204,8 @@ DefaultLow(ty, F, host) ==
       [] ty.t = "enumU8" -> CHOOSE x \in ty.set : \A y \in ty.set : x <= y
       [] ty.t \in {"struct", "indexed"} -> MinOf(ty.s, F, host)
       [] ty.t = "attStmt" -> [packed |-> FALSE, alg |-> 0, sig |-> << >>, x5c |-> << >>]
+      [] ty.t = "enumStr" -> CHOOSE x \in ty.tab : TRUE
+      [] ty.t = "cose" -> DefaultOf(ty, F, host)
       [] ty.t \in {"opt", "some"} -> DefaultLow(ty.i, F, host)
       [] OTHER -> << >>
 
@@ -196,13 +220,42 @@ FullOfHighs(s, F, host) ==
     [nm \in AllNames(s) |->
         LET m == MemberF(s, F, nm) IN
         IF m.feat # "" /\ m.feat \notin F THEN LNone
-        ELSE IF ~(m.ser \/ host) THEN LNone
         ELSE WrapFor(m, ExtHigh(InnerTy(m.ty), F, host))]
+
+\* every optional member present with the LOWEST value of its type (empty strings, empty lists,
+\* zero), required members at their defaults
+FullOfLows(s, F, host) ==
+    [nm \in AllNames(s) |->
+        LET m == MemberF(s, F, nm) IN
+        IF m.feat # "" /\ m.feat \notin F THEN LNone
+        ELSE IF m.req THEN DefaultOf(m.ty, F, host)
+        ELSE <<DefaultLow(InnerTy(m.ty), F, host)>>]
+
+\* the words of the dictionary in every text member of a given base value, one at a time, also one
+\* level down (rp.id, user.name, ...): a magic identifier usually needs company (an empty
+\* pinUvAuthParam, a particular option) -- the bases "everything present, lowest" and "everything
+\* present, default" provide it
+IsTextTy(ty) == ty.t \in {"str", "strTrunc", "strSkip"}
+WordsFor(ty, host) == {w \in DictAscii : \/ (ty.t = "str" /\ (ty.max < 0 \/ Len(w) <= ty.max))
+                                          \/ (ty.t \in {"strTrunc", "strSkip"} /\ (host \/ Len(w) <= ty.L))}
+DictOver(s, F, host, base) ==
+    LET ms == Members(s, F) IN
+    UNION {LET m   == ms[i]
+               ity == InnerTy(m.ty)
+           IN  IF IsTextTy(ity) THEN {[base EXCEPT ![m.name] = WrapFor(m, w)] : w \in WordsFor(ity, host)}
+               ELSE IF ity.t \in {"struct", "indexed"} /\ (m.req \/ base[m.name] # << >>) THEN
+                    LET sub == IF m.req THEN base[m.name] ELSE base[m.name][1]
+                        sms == SelectSeq(Members(ity.s, F), LAMBDA mm : IsTextTy(InnerTy(mm.ty)))
+                    IN  UNION {{[base EXCEPT ![m.name] = WrapFor(m, [sub EXCEPT ![sms[j].name] = WrapFor(sms[j], w)])]
+                                   : w \in WordsFor(InnerTy(sms[j].ty), host)} : j \in 1..Len(sms)}
+               ELSE {}
+           : i \in 1..Len(ms)}
+DictLattice(s, F, host) == DictOver(s, F, host, FullOfLows(s, F, host)) \cup DictOver(s, F, host, FullOfDefaults(s, F, host))
 
 \* the minimal value with every PAIR of members set to every combination of their extremes
 TwoAtATime(s, F, host) ==
     LET min == MinOf(s, F, host)
-        ms  == SelectSeq(Members(s, F), LAMBDA m : m.ser \/ host)
+        ms  == Members(s, F)        \* a member that is never serialised can still be SET: the encoder must ignore it
     IN  UNION {UNION {{[min EXCEPT ![ms[i].name] = WrapFor(ms[i], a), ![ms[j].name] = WrapFor(ms[j], b)] :
                           a \in Extremes(InnerTy(ms[i].ty), F, host), b \in Extremes(InnerTy(ms[j].ty), F, host)}
                       : j \in (i + 1)..Len(ms)} : i \in 1..Len(ms)}
@@ -211,7 +264,7 @@ TwoAtATime(s, F, host) ==
 \* the minimal value with every TRIPLE of members at the upper end of their types
 ThreeAtATime(s, F, host) ==
     LET min == MinOf(s, F, host)
-        ms  == SelectSeq(Members(s, F), LAMBDA m : m.ser \/ host)
+        ms  == Members(s, F)        \* a member that is never serialised can still be SET: the encoder must ignore it
         hi(i) == WrapFor(ms[i], ExtHigh(InnerTy(ms[i].ty), F, host))
     IN  UNION {UNION {{[min EXCEPT ![ms[i].name] = hi(i), ![ms[j].name] = hi(j), ![ms[k].name] = hi(k)]
                           : k \in (j + 1)..Len(ms)} : j \in (i + 1)..Len(ms)} : i \in 1..Len(ms)}
@@ -223,7 +276,7 @@ ListWithOddOneAt(ety, n, k, odd, F, host) == [i \in 1..n |-> IF i = k THEN odd E
 \* the direction asked for) replaced by each alternative of its type
 OneAtATime(s, F, host) ==
     LET min == MinOf(s, F, host)
-        ms  == SelectSeq(Members(s, F), LAMBDA m : m.ser \/ host)
+        ms  == Members(s, F)        \* a member that is never serialised can still be SET: the encoder must ignore it
     IN  {min} \cup UNION {{[min EXCEPT ![ms[i].name] = WrapFor(ms[i], a)] : a \in Alts(InnerTy(ms[i].ty), F, host)} : i \in 1..Len(ms)}
 
 =============================================================================
